@@ -445,11 +445,19 @@ func verifCheckC02(st *verifStream, run *verifSendRun, txnMode bool) {
 			if it.kind != verifItMulti {
 				continue
 			}
+			closed := false
 			for _, jt := range st.items[gi:] {
 				if jt.kind == verifItExec && jt.group == it.group {
+					closed = true
 					inside := verifAnd(R >= it.ce.Offset, R < jt.ce.Offset)
 					verifAssert(!inside, "C02.position-inside-source-transaction")
 				}
+			}
+			if !closed {
+				// the run was stopped while the source transaction was still open (its EXEC has not arrived):
+				// nothing at or behind its MULTI may be recorded
+				verifAssert(R < it.ce.Offset, "C02.position-inside-source-transaction")
+				verifCover(true, "c02.stopped-inside-open-transaction")
 			}
 		}
 	}
